@@ -399,7 +399,7 @@ pub fn run(args: &Args) -> i32 {
         return mon.finish();
     }
     let n_shards = 64u64;
-    let per_shard = args.scale(3_000_000, 50_000_000);
+    let per_shard = args.scale(3_000_000, 100_000_000);
     let sweep_parts = if args.is_thorough() { 64 } else { 64 * 8 };
     vcommon::monitor::run_shards(&mut mon, args.threads, n_shards, |shard, m| {
         if shard == 0 {
